@@ -79,6 +79,15 @@ def compositeLine (leaves : List Char) (ops : List String) : String :=
       let i := act.findIdx id
       let act' := act.mapIdx fun j a => if j == i then false else a
       (act', subs, on, out ++ [show1 subs])
+    | "unwrap" =>
+      -- the first active `Generic` leaf is taken out and unwrapped: its fd leaves the poller at once
+      let cand := (List.range n).filter fun j => (act[j]?.getD false) && leaves[j]? == some 'g'
+      match cand.head? with
+      | some i =>
+        let act' := act.mapIdx fun j a => if j == i then false else a
+        let subs' := subs.mapIdx fun j s => if j == i then none else s
+        (act', subs', on, out ++ [show1 subs'])
+      | none => (act, subs, on, out ++ [show1 subs])
     | _ => let s := if on then assign act else subs; (act, s, on, out ++ [show1 s])) (act0, init, true, [show1 init])
   let _ := act
   let idx := List.range n
